@@ -131,16 +131,49 @@ def scn_cancel(ctx):
     return True
 
 
+def scn_quiescent(ctx):
+    """No race at all: submit, let the library's threads settle (the callable is handed to the
+    delegate and still pending there), then cancel().  The request reaches the delegate's future,
+    cancel() returns True, the callable never starts."""
+    p = ctx.params
+    name = p["entry"]
+    ev = ctx.ev
+    started = []
+
+    def fn():
+        started.append(1)
+        return 1
+
+    e = entries.build(ctx, name, fn=fn)
+    f = e.fut
+    sched.vsleep_until(sched.now() + 1)
+    dels = list(e.me.submitted)
+    if not ctx.check("handed-to-delegate", len(dels) == 1 and not dels[0].done(), "%s: delegate futures %r" % (name, dels)):
+        return
+    r = f.cancel()
+    ctx.check("cancel-of-pending-work-succeeds", r is True, "%s: cancel() returned %r although the delegate's future was pending and cancellable" % (name, r))
+    ctx.check("cancel-reaches-delegate", len(ev.of("cancel_call", tag=dels[0].tag)) >= 1 and dels[0].cancelled(),
+              "%s: the delegate's future got %d cancel() calls, state %s" % (name, len(ev.of("cancel_call", tag=dels[0].tag)), dels[0]._state))
+    e.me.run(dels[0])  # the delegate's worker dequeues it
+    sched.vsleep_until(sched.now() + 5)
+    ctx.check("no-start-after-successful-cancel", not started, "%s: callable ran after the cancel" % name)
+    ctx.check("stays-cancelled", outcome(f) == ("cancelled",), "%s: outcome %r" % (name, outcome(f)))
+    ctx.reach("quiescent-cancel")
+    e.close()
+    return True
+
+
 ENT = ["map", "flat_map", "timeout", "retry", "poll", "throttle", "cancel_on_shutdown"]
 STK = ["stack:retry+map", "stack:map+retry", "stack:throttle+retry", "stack:retry+throttle", "stack:timeout+retry",
        "stack:retry+poll", "stack:poll+retry", "stack:retry+retry", "stack:throttle+map", "stack:flat_map+retry"]
 POOL = ["pool:retry", "pool:retry+map"]
 
 ASSUMPTIONS = ["the callable fails on its first `fails` invocations (Boom) so that retry layers have something to retry; retry layers: max_attempts=2, sleep=1",
+               "falsy_futures: the delegate executor hands out future objects whose class makes them falsy (len() == 0)",
                "'running' = the callable has started and not ended for the whole duration of the cancel() call"]
 BOUNDS_TEXT = {"quick": "map/flat_map entries also with a scheduling point inside the user function; 7 executor entries + 11 f_* + 10 two-layer stacks over a manual delegate + 4 stacks over thread_pool(1); 1-2 cancellers x 1-2 calls; P<=1",
                "thorough": "2 cancellers x 2 calls; P<=2"}
-MUST_REACH = {"*": ["cancel-true", "cancel-false", "retry-cancel-checked", "cancel-while-running", "propagation-checked"]}
+MUST_REACH = {"*": ["cancel-true", "cancel-false", "retry-cancel-checked", "cancel-while-running", "propagation-checked", "quiescent-cancel"]}
 BUDGET = {"quick": 120.0, "thorough": 600.0}
 
 
@@ -154,6 +187,11 @@ def plan(tier, seed):
     for n in ("map", "flat_map", "f_map", "f_flat_map"):
         # cancel() issued while the user's map / flat_map function is running on the worker
         items.append(dict(scenario="cancel", params=dict(entry=n, cancellers=1, calls=1, fn_points=True), bounds=dict(P=(1 if q else 2))))
+    for n in ENT:
+        # the delegate's futures are falsy objects (container-like futures with len() == 0)
+        items.append(dict(scenario="cancel", params=dict(entry=n, cancellers=1, calls=1, falsy_futures=True), bounds=dict(P=1)))
+        items.append(dict(scenario="quiescent", params=dict(entry=n), bounds=dict(P=0)))
+        items.append(dict(scenario="quiescent", params=dict(entry=n, falsy_futures=True), bounds=dict(P=0)))
     for n in STK:
         items.append(dict(scenario="cancel", params=dict(entry=n, cancellers=1, calls=2 if not q else 1), bounds=dict(P=0 if q else 1)))
     for n in POOL:
